@@ -134,6 +134,16 @@ func init() {
 		"r.unregisterSubscriptionLocked", "r.removeSubscriptionLocked", "r.detachTriggerLocked", "closeSubs", "res.triggerCancel", "cancel", "delete", "s.removed.CompareAndSwap",
 		"trig.initialized.*", "go", "r.executeStartupHooks", "add.resolve.Trigger.Source.Start", "sub.writeError", "s.writeError", "r.doneTriggerFromUpdater", "r.markTriggerInitialized",
 		"r.UnsubscribeSubscription", "r.removeClient", "context.WithCancel", "trig.snapshotSubscriptions", "defer:verifYield"}
+	// C01: the response-tree merging that decides which fields are rendered for which runtime types
+	mf := "v2/pkg/engine/postprocess/merge_fields.go"
+	mm := []string{"if", "return", "for", "m.*", "append", "bytes.Equal", "copy", "make"}
+	specs["C01"] = []item{
+		{Kind: "calls", File: mf, Func: "mergeFields.traverseNode", Name: "mergeTraverse", Match: mm},
+		{Kind: "calls", File: mf, Func: "mergeFields.mergeScalars", Name: "mergeScalars", Match: mm},
+		{Kind: "calls", File: mf, Func: "mergeFields.mergeParentOnTypeNames", Name: "mergeParentOnTypeNames", Match: mm},
+		{Kind: "calls", File: mf, Func: "mergeFields.fieldsCanMerge", Name: "fieldsCanMerge", Match: mm},
+		{Kind: "calls", File: mf, Func: "mergeFields.mergeValues", Name: "mergeValues", Match: mm},
+	}
 	// C15: the literal → JSON converter and the block string value
 	av := "v2/pkg/ast/ast_value.go"
 	asv := "v2/pkg/ast/ast_val_string_value.go"
